@@ -99,8 +99,11 @@ impl<'i, R: RuleType> FlatPairs<'i, R> {
 
 impl<R: RuleType> ExactSizeIterator for FlatPairs<'_, R> {
     fn len(&self) -> usize {
-        // Tokens len is exactly twice as flatten pairs len
-        (self.end - self.start) >> 1
+        // `next_back` leaves `end` on the `Start` token of the pair it returned, so the window can
+        // hold `End` tokens without their `Start` (and vice versa): count the pairs still to come.
+        (self.start..self.end)
+            .filter(|&index| self.is_start(index))
+            .count()
     }
 }
 
